@@ -103,7 +103,7 @@ def main(argv=None):
             n_proved += 1
         elif st == 'inconclusive':
             n_inc += 1
-            lines.append('INCONCLUSIVE property=%s obligation=%s %s' % (pid, r['ob'], r.get('detail', '')))
+            lines.append('INCONCLUSIVE property=%s obligation=%s [%s] %s' % (pid, r['ob'], r.get('name', ''), r.get('detail', '')))
         elif st == 'violated':
             k = r.get('key', r['ob'])
             if k in known_open:
